@@ -41,6 +41,7 @@ bands); lazy inverses: the solvers of the configuration - with a closed-form Num
 from __future__ import annotations
 
 import itertools
+import json
 import sys
 from fractions import Fraction
 
@@ -1435,6 +1436,11 @@ class Check(PropertyCheck):
         if ref is None:
             return []
         ref = widen(ref)
+        # a division anywhere in the description (inverse of a scalar multiple of the identity is the float32 reciprocal,
+        # `/ c`) makes the float64 closed form differ from the float32 one in the last place: compare with a tolerance
+        # (false alarm of vp check #5, seed 1: 1/(-1+2j) in complex64 vs complex128)
+        txt = json.dumps({'let': case.get('let'), 'e': case.get('e')})
+        approx = approx or any(t in txt for t in ('"inv"', '"I"', '"div"', '"div2"'))
         bad = []
         for tag in ('mv', 'override', 'generic'):
             m = mats.get(tag)
